@@ -43,6 +43,7 @@ pub fn classes(prop: &str) -> &'static [&'static str] {
             "media-changed-id3-text-reencoded",
             "offset-broken",
             "offset-broken-data-before-box",
+            "offset-broken-iloc",
             "offset-underflow",
         ],
         "C12" => &[
@@ -314,7 +315,7 @@ pub fn check_steps(cx: &mut Ctx, asset: &Asset, steps: &[Step]) {
     let fam = asset.family;
     let orig_removed = once_remove(asset);
     for (k, st) in steps.iter().enumerate() {
-        let what = format!("step {k} ({})", st.op.text().chars().take(24).collect::<String>());
+        let what = format!("[{}] step {k} ({})", asset.desc, st.op.text().chars().take(24).collect::<String>());
         if let Some(e) = &st.err {
             if is_panic(e) {
                 let class = if asset.family == Family::Bmff && e.contains("subtract with overflow") { "offset-underflow" } else { "panic" };
@@ -482,8 +483,20 @@ fn asset_has_manifest(asset: &Asset, steps: &[Step], k: usize) -> bool {
     has
 }
 
+/// A store length the family can carry: at least its minimum; for BMFF not exactly the
+/// 38-byte bare C2PA superbox, which `Store::from_jumbf` accepts as a store without any
+/// claim and `BmffIO::write_cai` then rejects ("no provenance claim").
+fn legal_len(fam: Family, len: usize) -> usize {
+    let l = len.max(min_store_len(fam));
+    if fam == Family::Bmff && l == 38 {
+        39
+    } else {
+        l
+    }
+}
+
 fn fresh_store(fam: Family, rng: &mut Rng, thorough: bool) -> Store {
-    gen_store(store_len(fam, rng, thorough), rng.below(100_000))
+    gen_store(legal_len(fam, store_len(fam, rng, thorough)), rng.below(100_000))
 }
 
 /// Op sequences per property.
@@ -508,8 +521,8 @@ fn sequence(prop: &str, fam: Family, rng: &mut Rng, thorough: bool) -> Vec<Op> {
         "C09" => match rng.below(5) {
             0 => vec![Op::Write(s1), Op::Remove],
             1 => {
-                let big = gen_store(s1.bytes.len() + rng.range(1, 300) as usize, 7);
-                let small = gen_store((s1.bytes.len() / 2).max(min_store_len(fam)), 8);
+                let big = gen_store(legal_len(fam, s1.bytes.len() + rng.range(1, 300) as usize), 7);
+                let small = gen_store(legal_len(fam, s1.bytes.len() / 2), 8);
                 vec![Op::Write(s1), Op::Write(big), Op::Write(small), Op::Patch(same), Op::Remove]
             }
             2 => vec![Op::Remove],
@@ -555,7 +568,12 @@ pub fn run_prop(run: &mut Run, rng: &mut Rng, prop: &'static str) {
 pub fn one_case(run: &mut Run, prop: &'static str, asset: &Asset, ops: &[Op]) -> usize {
     let steps = exec(asset, ops);
     let idx = record(run, prop, asset, &steps);
-    run.count(&format!("layout_{}", asset.desc.split('@').next().unwrap_or("")));
+    let layout_key = if asset.family == Family::Jxl {
+        format!("jxl{}{}{}", if asset.existing.is_some() { "+cai" } else { "" }, if asset.desc.contains("largesize") { "+largesize" } else { "" }, if asset.desc.contains("size0") { "+size0" } else { "" })
+    } else {
+        asset.desc.split('@').next().unwrap_or("").split("-o").next().unwrap_or("").to_string()
+    };
+    run.count(&format!("layout_{layout_key}"));
     let all_ok = steps.iter().all(|s| s.ok || matches!(s.op, Op::BoxMap | Op::Loc));
     if all_ok {
         run.nontrivial(format!("{} {} {}", asset.fmt, asset.desc, ops.iter().map(|o| o.text()).collect::<Vec<_>>().join(",")));
